@@ -45,7 +45,18 @@ def _walk(ctx, rel, cls, q, tag="", **kw):
     if isinstance(w, Exception):
         ctx.error(f"{q.split('.')[-1]}: cannot follow the file position", ctx.src.func(rel, q), str(w))
         return None
+    # bytes of the file decoded into a number that steers the reading (a count, a test) through a function the evaluator does not model
+    # (int.from_bytes, np.frombuffer, ...): nothing can be decided about such a reader
+    if not hasattr(w, "_c11_unmodelled"):
+        w._c11_unmodelled = sorted(n for n in _decoders(w.top.items, binary_only=True) if n not in MODELLED_DECODERS)
+    if w._c11_unmodelled:
+        ctx.error(f"{q.split('.')[-1]}: bytes read from the file steer the reading through a decoder the evaluator does not model",
+                  ctx.src.func(rel, q), w._c11_unmodelled)
+        return None
     return w
+
+
+MODELLED_DECODERS = frozenset({"dec", "arr", "call:len", "call:.decode", "call:bool"})
 
 
 def _w2(ctx, name, **kw):
@@ -856,9 +867,10 @@ def r3_sibling_decoders(ctx):
 
 
 # ------------------------------------------------------------------------------------------------------------------ R4
-def _decoders(items):
+def _decoders(items, binary_only=False):
     """names of the functions applied directly to bytes / lines read from the file, anywhere in a consumption tree"""
     out = set()
+    kinds = ("rd",) if binary_only else ("rd", "ln", "lns")
 
     def scan(v):
         if not _rat(v):
@@ -869,9 +881,9 @@ def _decoders(items):
                     if isinstance(k, str):
                         continue
                     a = C.fn_parts(C._arg(k))
-                    if a is not None and a[0] in ("rd", "ln", "lns"):
+                    if a is not None and a[0] in kinds:
                         out.add(d[1])
-                    elif a is not None and a[0] == "idx" and _rat(a[1][0]) and (C.fn_parts(a[1][0]) or ("",))[0] in ("rd", "ln"):
+                    elif a is not None and a[0] == "idx" and _rat(a[1][0]) and (C.fn_parts(a[1][0]) or ("",))[0] in kinds:
                         out.add(d[1])
 
     def walk(its):
